@@ -23,8 +23,44 @@ Global clauses checked on every case: result is a one-hot tensor of the original
 not above the loss of the start; max_iter = 0 returns the start; membership in the admissible set
 (which implies "differs only inside substituted windows").
 Not checked: `args` (the function tiles X but not args, so predict refuses any args; the statement
-does not mention them), `verbose`, the unused `start` parameter, motifs longer than the sequence.
+does not mention them), the unused `start` parameter, motifs longer than the sequence, whether the
+caller's X is left untouched, the dtype of the result.
+
+Extended cases (`_gen_ext`, interleaved 2 : 3 with the original generator so that a time cut hits both
+alike) add the input classes the original generator never produced; the oracle is the same
+brute-force enumeration, only generalised to flat lists of selected outputs:
+  * models with per-example outputs of shape (n_out, T) ("profile" heads): the per-candidate loss is the
+    mean over ALL non-batch axes, the mask selects channels (axis 1);
+  * models that ignore a stretch of positions (zero first-layer weights, "receptive field"): every
+    substitution inside the stretch has improvement exactly 0 and must not be applied, and the search
+    ends on an iteration whose best improvement is exactly 0;
+  * losses for which the argument order and the sign matter: asym(y, y_hat) = 2 relu(y - y_hat) +
+    relu(y_hat - y) (the documented call is loss(y, y_hat)) and negdot = -(y * y_hat) (negative losses),
+    passed as plain functions; MSE / L1 also as plain functions instead of torch modules;
+  * float32 models / targets (only where every sum stays below 2**24 and the number of selected outputs
+    is a power of two, i.e. where float32 is still exact), mixed target / model dtypes;
+  * X of dtype uint8 / int16 / int32 / int64 / float64, X handed over as a non-contiguous view;
+  * motif lists with a duplicated motif, with a motif that is already present in the sequence (a no-op
+    candidate with improvement 0), ordered longest first, given as a tuple;
+  * `alphabet` / `batch_size` left to their defaults, verbose=True (output swallowed; it must not change
+    the result);
+  * tol equal to the exact improvement of the 1st .. 5th step of the reference path, or one loss quantum
+    below / above it (pins down "not above tol" on later iterations, not only on the first).
 """
+
+# POSSIBLE DEFECT ------------------------------------------------------------------------------------
+# A mask of the full per-example output shape (n_out, T) on a model with (n_out, T) outputs -- still "a
+# mask over outputs" in the sense of the quantifier -- makes greedy_substitution raise on the unchanged
+# tree: y_hat[:, mask] is then 2-D, but the mean is taken over range(1, y_hat.ndim) of the UNMASKED
+# prediction (design.py L160-163):
+#     IndexError: Dimension out of range (expected to be in range of [-2, 1], but got 2)
+# Input: model = Net(A=4, L=12, n_out=3, hidden=3, kind='lin', seed=1, T=4), X = one-hot 'AAAAAAAAAAAA',
+#        motifs ['ACG', 'TT'], y = zeros(1, 3, 4), mask = bool tensor of shape (3, 4) with at least one
+#        True, device='cpu'  (a channel mask of shape (3,) works).
+# The docstring only documents y of shape (1, n), so this may be read as outside the contract; the cases
+# are generated (60 in quick, 600 in thorough) only if the flag below is True.
+FULL_SHAPE_MASK_ON_PROFILE_OUTPUTS = False
+
 import random
 from fractions import Fraction
 
@@ -33,12 +69,15 @@ import torch
 from tangermeme.design import greedy_substitution
 
 SCOPE = {
-    'quick': '2500 seeded random cases: sequence length 8-40 (length 8 over-weighted so that motifs of length 8 fit only at position 0), '
+    'quick': '2400 seeded random cases: sequence length 8-40 (length 8 over-weighted so that motifs of length 8 fit only at position 0), '
              '1-5 motifs of length 1-8 over alphabets of 2-5 letters (ACGT mostly), integer relu / linear models with 1-8 outputs, masks selecting '
              '1-8 outputs, MSE and L1 loss, tol in {0, 1e-3, 0.25, 0.5, 1, 2, exact first improvement}, max_iter in {-1, 0, 1, 2, 3, 4}, batch sizes 1-64, '
              'int8 / float32 X; targets: random, or the model output with a motif planted at the LAST fitting position / the first position / a random position, '
-             'or with 2-4 motifs planted (multi-step paths)',
-    'thorough': 'as quick with 40000 seeded random cases',
+             'or with 2-4 motifs planted (multi-step paths); interleaved with 1600 extended cases: models with (n_out, T) profile outputs (T 2-8) and channel masks, '
+             'models blind to a stretch of positions (exact zero-improvement candidates), asymmetric / negative-valued / plain-function losses, float32 models and targets '
+             '(exact range only) and mixed dtypes, X of dtype uint8/int16/int32/int64/float64 and non-contiguous X, duplicated / already-present / longest-first / tuple motif lists, '
+             'default alphabet and batch_size, verbose=True, tol at / one quantum below / one quantum above the exact improvement of step 1-5 of the reference path',
+    'thorough': 'as quick with 24000 + 16000 seeded random cases',
 }
 
 F64 = torch.float64
@@ -77,63 +116,102 @@ class _deadline:
 
 
 class Net(torch.nn.Module):
-    def __init__(self, A, L, n_out, hidden, kind, seed):
+    """integer-valued two-layer model; T: per-example output of shape (n_out, T) instead of (n_out,);
+    dead = [lo, hi): the model ignores positions lo .. hi-1; dtype: parameter / output dtype"""
+
+    def __init__(self, A, L, n_out, hidden, kind, seed, T=None, dead=None, dtype=F64):
         super().__init__()
         g = random.Random(seed)
 
         def mat(r, c, lo, hi):
-            return torch.nn.Parameter(torch.tensor([float(g.randint(lo, hi)) for _ in range(r * c)], dtype=F64).reshape(r, c), requires_grad=False)
-        self.kind = kind
-        self.W1 = mat(hidden, A * L, -2, 2)
-        self.b1 = mat(1, hidden, -1, 1)
-        self.W2 = mat(n_out, hidden, -2, 2)
+            return torch.tensor([float(g.randint(lo, hi)) for _ in range(r * c)], dtype=F64).reshape(r, c)
+        self.kind, self.T, self.n_out, self.dt = kind, T, n_out, dtype
+        W1 = mat(hidden, A * L, -2, 2)
+        b1 = mat(1, hidden, -1, 1)
+        W2 = mat(n_out * (T or 1), hidden, -2, 2)
+        if dead:
+            W1 = W1.reshape(hidden, A, L)
+            W1[:, :, dead[0]:dead[1]] = 0
+            W1 = W1.reshape(hidden, A * L)
+        self.W1 = torch.nn.Parameter(W1.to(dtype), requires_grad=False)
+        self.b1 = torch.nn.Parameter(b1.to(dtype), requires_grad=False)
+        self.W2 = torch.nn.Parameter(W2.to(dtype), requires_grad=False)
 
     def forward(self, X):
-        h = X.reshape(X.shape[0], -1).to(F64) @ self.W1.T + self.b1
+        h = X.reshape(X.shape[0], -1).to(self.dt) @ self.W1.T + self.b1
         if self.kind == 'relu':
             h = torch.relu(h)
-        return h @ self.W2.T
+        o = h @ self.W2.T
+        return o.reshape(X.shape[0], self.n_out, self.T) if self.T else o
 
 
-def _model(case):
+def _model(case, oracle=False):
+    """oracle=True: the same integer weights in float64 (the reference never depends on float32)"""
     m = case['model']
-    return Net(len(case['alphabet']), len(case['seq']), m['n_out'], m['hidden'], m['type'], m['seed'])
+    dt = F64 if oracle else getattr(torch, m.get('dtype', 'float64'))
+    return Net(len(case['alphabet']), len(case['seq']), m['n_out'], m['hidden'], m['type'], m['seed'],
+               T=m.get('T'), dead=m.get('dead'), dtype=dt)
 
 
 def _outputs(model, A, seqs):
-    """integer outputs of the model on index-level sequences (own one-hot construction)"""
+    """integer outputs (flattened per example) of the model on index-level sequences (own one-hot construction)"""
     X = torch.nn.functional.one_hot(torch.tensor(seqs, dtype=torch.int64), A).permute(0, 2, 1).to(F64)
     with torch.no_grad():
         Y = model(X)
-    return [[int(v) for v in row] for row in Y.tolist()]
+    return [[int(v) for v in row] for row in Y.reshape(Y.shape[0], -1).tolist()]
 
 
 def _loss(o, y, sel, kind):
+    """mean over the selected outputs of loss(y, y_hat = o), exact"""
     if kind == 'mse':
         S = sum((y[j] - o[j]) ** 2 for j in sel)
-    else:
+    elif kind == 'l1':
         S = sum(abs(y[j] - o[j]) for j in sel)
+    elif kind == 'asym':                           # 2 relu(y - y_hat) + relu(y_hat - y): predicting too little costs double
+        S = sum(2 * (y[j] - o[j]) if y[j] > o[j] else o[j] - y[j] for j in sel)
+    elif kind == 'negdot':                         # -(y * y_hat): negative losses
+        S = sum(-(y[j] * o[j]) for j in sel)
+    else:
+        raise ValueError(kind)
     return Fraction(S, len(sel))
 
 
+def _flat(v):
+    return [x for row in v for x in row] if v and isinstance(v[0], (list, tuple)) else list(v)
+
+
 def _setup(case):
+    """-> alphabet, start sequence and motifs as index tuples, flat indices of the selected outputs
+    (an output (j, t) of a profile model has flat index j * T + t; a 1-D mask selects channels j)"""
     alphabet = case['alphabet']
     idx = {ch: i for i, ch in enumerate(alphabet)}
     seq = tuple(idx[ch] for ch in case['seq'])
     motifs = [tuple(idx[ch] for ch in m) for m in case['motifs']]
-    n_out = case['model']['n_out']
-    sel = [j for j in range(n_out) if case['mask'] is None or case['mask'][j]]
+    n_out, T = case['model']['n_out'], case['model'].get('T')
+    mask = case['mask']
+    if mask is None:
+        sel = list(range(n_out * (T or 1)))
+    elif T and isinstance(mask[0], (list, tuple)):
+        sel = [j * T + t for j in range(n_out) for t in range(T) if mask[j][t]]
+    elif T:
+        sel = [j * T + t for j in range(n_out) if mask[j] for t in range(T)]
+    else:
+        sel = [j for j in range(n_out) if mask[j]]
     return alphabet, seq, motifs, sel
+
+
+def _pow2(n):
+    return n > 0 and n & (n - 1) == 0
 
 
 def admissible(case, model, skip_last=False):
     """-> (set of admissible final sequences or None if capped, max accepted steps, used_last_position)"""
     alphabet, seq0, motifs, sel = _setup(case)
     A, L = len(alphabet), len(seq0)
-    y, kind = case['y'], case['loss']
+    y, kind = _flat(case['y']), case['loss']
     tol = Fraction(case['tol'])
     max_iter = case['max_iter']
-    exact_mean = len(sel) in (1, 2, 4, 8)
+    exact_mean = _pow2(len(sel))
     finals, seen, stack = set(), set(), [(seq0, 0)]
     info = {'steps': 0, 'last': False}
     cache = {}
@@ -188,29 +266,63 @@ def admissible(case, model, skip_last=False):
     return finals, info['steps'], info['last']
 
 
+_LOSS_FN = {
+    'mse': lambda y, y_hat: (y - y_hat) ** 2,
+    'l1': lambda y, y_hat: (y - y_hat).abs(),
+    'asym': lambda y, y_hat: 2 * torch.relu(y - y_hat) + torch.relu(y_hat - y),
+    'negdot': lambda y, y_hat: -(y * y_hat),
+}
+
+
 def _call(case, model):
     alphabet, seq0, motifs, sel = _setup(case)
     A, L = len(alphabet), len(seq0)
-    X = torch.zeros(1, A, L, dtype=getattr(torch, case.get('xdtype', 'int8')))
+    xdt = getattr(torch, case.get('xdtype', 'int8'))
+    if case.get('xlayout') == 'permuted':          # same values, handed over as a non-contiguous view
+        X = torch.zeros(1, L, A, dtype=xdt).permute(0, 2, 1)
+    else:
+        X = torch.zeros(1, A, L, dtype=xdt)
     for p, c in enumerate(seq0):
         X[0, c, p] = 1
-    y = torch.tensor([case['y']], dtype=F64)
-    kw = dict(tol=case['tol'], max_iter=case['max_iter'], alphabet=alphabet, batch_size=case['batch_size'], device='cpu')
+    y = torch.tensor([case['y']], dtype=getattr(torch, case.get('ydtype', 'float64')))
+    kw = dict(tol=case['tol'], max_iter=case['max_iter'], device='cpu')
+    if not case.get('omit_alphabet'):
+        kw['alphabet'] = alphabet
+    if case['batch_size'] is not None:
+        kw['batch_size'] = case['batch_size']
     if case['mask'] is not None:
         kw['mask'] = torch.tensor(case['mask'], dtype=torch.bool)
-    if case['loss'] == 'l1':
+    if case.get('loss_form') == 'fn':
+        kw['loss'] = _LOSS_FN[case['loss']]
+    elif case['loss'] == 'l1':
         kw['loss'] = torch.nn.L1Loss(reduction='none')
+    elif case['loss'] != 'mse':
+        raise ValueError('loss %r needs loss_form fn' % case['loss'])
     elif case.get('explicit_loss'):
         kw['loss'] = torch.nn.MSELoss(reduction='none')
+    motif_arg = tuple(case['motifs']) if case.get('motifs_tuple') else list(case['motifs'])
     with _deadline(CALL_TIMEOUT_S):
-        return greedy_substitution(model, X, list(case['motifs']), y, **kw)
+        if case.get('verbose'):
+            import contextlib
+            import io
+            kw['verbose'] = True
+            with contextlib.redirect_stdout(io.StringIO()), contextlib.redirect_stderr(io.StringIO()):
+                return greedy_substitution(model, X, motif_arg, y, **kw)
+        return greedy_substitution(model, X, motif_arg, y, **kw)
+
+
+def _models(case):
+    """-> (model handed to greedy_substitution, float64 model of the same integer weights for the reference)"""
+    model = _model(case)
+    return model, (model if model.dt == F64 else _model(case, oracle=True))
 
 
 def check_greedy(case, _info=None):
     alphabet, seq0, motifs, sel = _setup(case)
     A, L = len(alphabet), len(seq0)
-    model = _model(case)
-    fin, steps, last = admissible(case, model)
+    y = _flat(case['y'])
+    model, ref = _models(case)
+    fin, steps, last = admissible(case, ref)
     if _info is not None:
         _info.update(steps=steps, last=last, capped=fin is None, n_final=None if fin is None else len(fin))
     try:
@@ -225,18 +337,18 @@ def check_greedy(case, _info=None):
         return ['result is not a valid one-hot sequence']
     got = tuple(R[0].argmax(dim=0).tolist())
     out = []
-    l0 = _loss(_outputs(model, A, [seq0])[0], case['y'], sel, case['loss'])
-    l1 = _loss(_outputs(model, A, [got])[0], case['y'], sel, case['loss'])
+    l0 = _loss(_outputs(ref, A, [seq0])[0], y, sel, case['loss'])
+    l1 = _loss(_outputs(ref, A, [got])[0], y, sel, case['loss'])
     dec = lambda s: ''.join(alphabet[c] for c in s)
     if l1 > l0:
         out.append('loss of the result is higher than the loss of the starting sequence: %s > %s (result %s)' % (l1, l0, dec(got)))
     if case['max_iter'] == 0 and got != seq0:
         out.append('max_iter = 0 but the sequence was changed: %s' % dec(got))
     if fin is not None and got not in fin:
-        fl = sorted(fin, key=lambda s: _loss(_outputs(model, A, [s])[0], case['y'], sel, case['loss']))
+        fl = sorted(fin, key=lambda s: _loss(_outputs(ref, A, [s])[0], y, sel, case['loss']))
         out.append('result is not what greedy best-substitution steps over ALL fitting positions produce (ties / tol boundary allowed for): '
                    'got %s (loss %s), admissible e.g. %s (loss %s); start %s (loss %s); %d admissible result(s)'
-                   % (dec(got), l1, dec(fl[0]), _loss(_outputs(model, A, [fl[0]])[0], case['y'], sel, case['loss']), dec(seq0), l0, len(fin)))
+                   % (dec(got), l1, dec(fl[0]), _loss(_outputs(ref, A, [fl[0]])[0], y, sel, case['loss']), dec(seq0), l0, len(fin)))
     return out
 
 
@@ -256,11 +368,11 @@ def _classify(case, viol):
     alphabet, seq0, motifs, sel = _setup(case)
     if any('raised' in v for v in viol):
         return 'last-fitting-position-not-tried' if any(len(m) == len(seq0) for m in motifs) else 'greedy-raises'
-    model = _model(case)
+    model, ref = _models(case)
     try:
         R = _call(case, model)
         got = tuple(R[0].argmax(dim=0).tolist())
-        fin, _, _ = admissible(case, model, skip_last=True)
+        fin, _, _ = admissible(case, ref, skip_last=True)
         if fin is not None and got in fin:
             return 'last-fitting-position-not-tried'
     except Exception:
@@ -359,23 +471,180 @@ def _gen(g, k):
     return case
 
 
+_XDTYPES = ['int8', 'uint8', 'int16', 'int32', 'int64', 'float32', 'float64']
+
+
+def _ref_improvements(case, net, n=5):
+    """exact improvements of the first n steps of the reference path (first minimiser on ties, tol ignored)"""
+    alphabet, s, motifs, sel = _setup(case)
+    A, y, kind = len(alphabet), _flat(case['y']), case['loss']
+    cur = _loss(_outputs(net, A, [s])[0], y, sel, kind)
+    out = []
+    for _ in range(n):
+        cands = [s[:q] + m + s[q + len(m):] for m in motifs for q in range(len(s) - len(m) + 1)]
+        ls = [_loss(o, y, sel, kind) for o in _outputs(net, A, cands)]
+        best = min(ls)
+        if cur - best <= 0:
+            break
+        out.append(cur - best)
+        s, cur = cands[ls.index(best)], best
+    return out
+
+
+def _gen_ext(g, k, mask2d=False):
+    """input classes the original generator never produces (see the module docstring); case['feats'] names them"""
+    feats = []
+    alphabet = g.choice(_ALPHABETS)
+    A = len(alphabet)
+    L = 8 if g.random() < 0.15 else g.randint(8, 40)
+    seq = ''.join(g.choice(alphabet) for _ in range(L))
+    nm = g.randint(1, 5)
+    motifs = []
+    for _ in range(nm):
+        ml = 8 if (L == 8 and g.random() < 0.3) else g.randint(1, 8)
+        motifs.append(''.join(g.choice(alphabet) for _ in range(ml)))
+    if nm >= 2 and g.random() < 0.15:
+        i, j = g.sample(range(nm), 2)
+        motifs[j] = motifs[i]
+        feats.append('duplicate-motif')
+    if g.random() < 0.15:
+        ml = g.randint(1, 8)
+        q = g.randint(0, L - ml)
+        motifs[g.randrange(nm)] = seq[q:q + ml]
+        feats.append('motif-already-present')
+    if nm >= 2 and g.random() < 0.25:
+        motifs.sort(key=len, reverse=True)
+        feats.append('longest-first')
+    T = g.choice([2, 2, 4, 4, 8, 3]) if (mask2d or g.random() < 0.4) else None
+    n_out = g.choice([1, 2, 3, 4]) if T else g.choice([1, 2, 3, 4, 5, 8])
+    dtype = 'float32' if g.random() < 0.3 else 'float64'
+    model = {'n_out': n_out, 'hidden': g.randint(2, 3) if dtype == 'float32' else g.randint(2, 6),
+             'type': g.choice(['relu', 'relu', 'lin']), 'seed': g.randrange(10 ** 6)}
+    if T:
+        model['T'] = T
+        feats.append('profile-output')
+    if g.random() < 0.35:
+        w = g.randint(max(2, L // 4), (3 * L) // 4)
+        lo = g.randint(0, L - w)
+        model['dead'] = [lo, lo + w]
+        feats.append('blind-stretch')
+    if mask2d:
+        mask = [[g.random() < 0.5 for _ in range(T)] for _ in range(n_out)]
+        mask[g.randrange(n_out)][g.randrange(T)] = True
+        feats.append('full-shape-mask')
+    elif g.random() < 0.35:
+        mask = None
+    else:
+        ksel = min(g.choice([1, 2, 4, 8, g.randint(1, n_out)]), n_out)
+        on = set(g.sample(range(n_out), ksel))
+        mask = [j in on for j in range(n_out)]
+    r = g.random()
+    loss = 'asym' if r < 0.3 else 'negdot' if r < 0.4 else 'l1' if r < 0.55 else 'mse'
+    loss_form = 'fn' if (loss in ('asym', 'negdot') or g.random() < 0.3) else 'module'
+    feats.append('loss-%s-%s' % (loss, loss_form))
+    case = {'kind': 'greedy', 'alphabet': alphabet, 'seq': seq, 'motifs': motifs, 'model': model, 'mask': mask,
+            'loss': loss, 'loss_form': loss_form, 'explicit_loss': g.random() < 0.2,
+            'tol': g.choice([0.0, 0.0, 0.0, 0.0, 1e-3, 1e-3, 0.25, 0.5, 1.0, 2.0]), 'max_iter': g.choice([-1, -1, -1, 0, 1, 2, 3, 4, 4]),
+            'batch_size': g.choice([1, 2, 7, 32, 64, g.randint(1, 64)]), 'xdtype': g.choice(_XDTYPES)}
+    net = _model(dict(case, y=None), oracle=True)
+    idx = {ch: i for i, ch in enumerate(alphabet)}
+    s0 = tuple(idx[c] for c in seq)
+    mots = [tuple(idx[c] for c in m) for m in motifs]
+    tk = g.random()
+    if loss == 'negdot' or tk < 0.2:
+        case['target'] = 'random'
+        y = [v + g.randint(-6, 6) for v in _outputs(net, A, [s0])[0]]
+    else:
+        if tk < 0.4:
+            plant, case['target'] = [(g.choice(mots), 'last')], 'planted-last'
+        elif tk < 0.5:
+            plant, case['target'] = [(g.choice(mots), 'any')], 'planted-random'
+        else:
+            plant, case['target'] = [(g.choice(mots), g.choice(['last', 'any', 'any'])) for _ in range(g.randint(2, 4))], 'planted-multi'
+        s1 = s0
+        for mm, where in plant:
+            q = L - len(mm) if where == 'last' else g.randint(0, L - len(mm))
+            s1 = s1[:q] + mm + s1[q + len(mm):]
+        y = _outputs(net, A, [s1])[0]
+        if g.random() < 0.3:
+            y = [v + g.randint(-1, 1) for v in y]
+    case['y'] = [y[j * T:(j + 1) * T] for j in range(n_out)] if T else y
+    nsel = len(_setup(case)[3])
+    # float32 only where it is exact: |output| <= 2 hidden (2 L + 1), |y - output| <= twice that + 6
+    bound = 2 * model['hidden'] * (2 * L + 1)
+    ok32 = _pow2(nsel) and nsel * (2 * bound + 6) ** 2 < 2 ** 24
+    if dtype == 'float32' and ok32:
+        model['dtype'] = case['ydtype'] = 'float32'
+        feats.append('float32-model-and-target')
+    elif g.random() < 0.15:                          # mixed: the loss is then computed in float64
+        if g.random() < 0.5:
+            model['dtype'] = 'float32'
+        else:
+            case['ydtype'] = 'float32'
+        feats.append('mixed-dtypes')
+    if g.random() < 0.4:
+        imps = _ref_improvements(case, net)
+        if imps:
+            i = g.randrange(len(imps))
+            t = imps[i] + g.choice([0, 0, -1, 1]) * (Fraction(1, nsel) if _pow2(nsel) else Fraction(1, 4))
+            if t >= 0 and Fraction(float(t)) == t:
+                case['tol'] = float(t)
+                feats.append('tol-at-step-%d' % (i + 1))
+    if g.random() < 0.25:
+        case['xlayout'] = 'permuted'
+        feats.append('non-contiguous-X')
+    if g.random() < 0.25:
+        case['motifs_tuple'] = True
+    if alphabet == ['A', 'C', 'G', 'T'] and g.random() < 0.4:
+        case['omit_alphabet'] = True
+        feats.append('default-alphabet')
+    if g.random() < 0.2:
+        case['batch_size'] = None
+        feats.append('default-batch-size')
+    if g.random() < 0.03:
+        case['verbose'] = True
+        feats.append('verbose')
+    case['feats'] = feats
+    return case
+
+
+def _one(rep, key, case, sample, prefix=''):
+    info = {}
+    viol = check_greedy(case, info)
+    st = info.get('steps', 0)
+    rep.case(key, nontrivial=bool(st), sample=sample,
+             section=prefix + ('capped' if info.get('capped') else ('steps-%s' % min(st, 3) + ('+' if st >= 3 else ''))))
+    if info.get('last') and not info.get('capped'):
+        rep.sections['best-placement-at-last-fitting-position'] = rep.sections.get('best-placement-at-last-fitting-position', 0) + 1
+    for f in case.get('feats', ()):
+        f = 'ext:' + (f if not f.startswith('tol-at-step') else 'tol-at-path-improvement')
+        rep.sections[f] = rep.sections.get(f, 0) + 1
+    if viol:
+        f = _classify(case, viol)
+        for v in viol[:2]:
+            rep.violation(v, case, finding=f)
+
+
 @_single_thread
 def run(rep):
     thorough = rep.tier == 'thorough'
     g = rep.rng
-    n = 40000 if thorough else 2500
-    for k in range(n):
+    if FULL_SHAPE_MASK_ON_PROFILE_OUTPUTS:
+        for k in range(600 if thorough else 60):
+            _one(rep, ('m', k), _gen_ext(g, k, mask2d=True), None, 'ext-')
+    n_old, n_ext = (24000, 16000) if thorough else (2400, 1600)
+    ko = kx = i = 0
+    while ko < n_old or kx < n_ext:
         if rep.out_of_time():
-            rep.note('time budget reached after %d cases' % k)
+            rep.note('time budget reached after %d original and %d extended cases' % (ko, kx))
             break
-        case = _gen(g, k)
-        info = {}
-        viol = check_greedy(case, info)
-        rep.case(('g', k), nontrivial=bool(info.get('steps')), sample=case if k < 2 else None,
-                 section='capped' if info.get('capped') else ('steps-%s' % min(info.get('steps', 0), 3) + ('+' if info.get('steps', 0) >= 3 else '')))
-        if info.get('last') and not info.get('capped'):
-            rep.sections['best-placement-at-last-fitting-position'] = rep.sections.get('best-placement-at-last-fitting-position', 0) + 1
-        if viol:
-            f = _classify(case, viol)
-            for v in viol[:2]:
-                rep.violation(v, case, finding=f)
+        ext = (i % 5 in (2, 4) or ko >= n_old) and kx < n_ext
+        i += 1
+        if ext:
+            case = _gen_ext(g, kx)
+            _one(rep, ('x', kx), case, case if kx < 2 else None, 'ext-')
+            kx += 1
+        else:
+            case = _gen(g, ko)
+            _one(rep, ('g', ko), case, case if ko < 2 else None)
+            ko += 1
